@@ -175,5 +175,5 @@ Qed.
 (* fftfreq(5, 1/2) = [0, 2/5, 4/5, -4/5, -2/5];  ramp phases of a (2 x 3) grid shifted by (1/2, 3) *)
 Lemma C16k_fftfreq_example :
   map (fun k => Qred (C16K.fftfreq_q 5 (1 # 2) k)) (seq 0 5) = [0; 2 # 5; 4 # 5; -4 # 5; -2 # 5]%Q
-  /\ C16K.ramp_phases 2 3 (1 # 2) 3 = [[0; -1; 1]; [1 # 4; -3 # 4; 5 # 4]]%Q.
+  /\ map (map Qred) (C16K.ramp_phases 2 3 (1 # 2) 3) = [[0; -1; 1]; [1 # 4; -3 # 4; 5 # 4]]%Q.
 Proof. split; vm_compute; reflexivity. Qed.
